@@ -27,7 +27,7 @@ class RealLifecycle:
         self.steps = []
         self._do(['start'])
         self._do(['pump'])
-        self.probes = 0
+        self.sent = 0            # requests made (probes and requests the peer leaves unanswered)
 
     def _do(self, st):
         self.steps.append(st)
@@ -35,8 +35,11 @@ class RealLifecycle:
 
     def _call(self, a):
         if a == 'probe':
-            self.probes += 1
-            self._do(['probe', 'c', [5 + self.probes, 0], [3, self.probes]])
+            self.sent += 1
+            self._do(['probe', 'c', [5 + self.sent, 0], [3, self.sent]])
+        elif a == 'pend':
+            self.sent += 1
+            self._do(['rr', 'c', [9, self.sent], {'mode': 'later'}])
         elif a == 'cut':
             self._do(['cut', 's', 'eof'])
         elif a == 'close':
@@ -49,6 +52,8 @@ class RealLifecycle:
     def act(self, name, args):
         if name == 'Probe':
             self._call('probe')
+        elif name == 'Pend':
+            self._call('pend')
         elif name == 'Cut':
             self._call('cut')
         elif name == 'Reconnect':
@@ -58,11 +63,14 @@ class RealLifecycle:
         elif name == 'Tick':
             self._do(['advance', PERIOD_MS + 10])
         elif name == 'Race':
-            self._do(['reconnect', int(args[1])])
-            if args[0] == 'reconnect':
+            first, a, j = args[0], args[1], int(args[2])
+            self._do(['reconnect', j] if first == 'reconnect' else ['close', 'c', j])
+            if a == 'reconnect':
                 self._do(['reconnect', 0])
+            elif a == 'close':
+                self._do(['close', 'c', 0])
             else:
-                self._call(args[0])
+                self._call(a)
         else:
             raise common.Machinery('unknown Lifecycle action %r' % name)
         self._do(['pump'])
@@ -80,7 +88,7 @@ class RealLifecycle:
                 o['tclosed'] += 1
             elif e['ev'] == 'cb_future':
                 o['answered'] += 1
-        o['hung'] = self.probes - o['answered']
+        o['waiting'] = self.sent - o['answered']
         return o
 
     def close(self):
@@ -97,7 +105,9 @@ class RealLifecycle:
 
 def _state(vs):
     k = tlc.parse_value(vs['k'])
-    return {key: k[key] for key in ('gen', 'closeCbs', 'tclosed', 'answered', 'hung', 'up', 'appClosed')}
+    d = {key: k[key] for key in ('gen', 'closeCbs', 'tclosed', 'answered', 'hung', 'pending', 'up', 'appClosed')}
+    d['waiting'] = k['hung'] + k['pending']
+    return d
 
 
 def _apply(real, name, args, before):
@@ -110,17 +120,18 @@ def _compare(real, exp, obs):
     # oracle on the real observations alone (C11): never more close notifications than connections
     if o['closeCbs'] > o['gen']:
         return ('C11.on_close_exactly_once', '%d on_close callbacks for %d connection(s)' % (o['closeCbs'], o['gen']))
-    for key in ('gen', 'closeCbs', 'tclosed', 'answered', 'hung'):
+    for key in ('gen', 'closeCbs', 'tclosed', 'answered', 'waiting'):
         if o[key] != exp[key]:
             return ('DRIFT', '%s is %s, the specification says %s' % (key, o[key], exp[key]))
     return None
 
 
-def check(v, props):
-    """props: clause prefixes that count as violations of the calling property (e.g. ('C17.', 'C11.'))"""
+def check(v, props, quick_cfg):
+    """props: clause prefixes that count as violations of the calling property (e.g. ('C17.', 'C11.')); quick_cfg: the configuration
+    of the quick tier (races that start with reconnect() for C17, with close() for C11; the thorough tier has both, two races deep)"""
     del _TRACES[:]
     thorough = common.tier() == 'thorough'
-    cfg = 'Lifecycle_wide.cfg' if thorough else 'Lifecycle.cfg'
+    cfg = 'Lifecycle_wide.cfg' if thorough else quick_cfg
     r = tlc.run('Lifecycle', cfg, workers=2, timeout=900, name='lifecycle')
     if r.timed_out or not r.finished:
         raise common.Machinery('TLC did not finish on Lifecycle/%s: %s' % (cfg, r.out[-1500:]))
@@ -129,7 +140,7 @@ def check(v, props):
     v.add('states', r.distinct)
     v.add('transitions', r.generated)
     v.coverage.setdefault('mc_configs', {})[cfg] = {'states': r.distinct, 'transitions': r.generated, 'depth': r.depth, 'wall_s': round(r.wall, 1)}
-    desc = lambda s: 'gen=%d up=%s closed=%s on_close=%d answered=%d waiting=%d' % (s['gen'], s['up'], s['appClosed'], s['closeCbs'], s['answered'], s['hung'])
+    desc = lambda s: 'gen=%d up=%s closed=%s on_close=%d answered=%d waiting=%d' % (s['gen'], s['up'], s['appClosed'], s['closeCbs'], s['answered'], s['waiting'])
     graphreplay.replay(v, 'Lifecycle', cfg, RealLifecycle, _apply, _compare, _state, prop=props[0].rstrip('.'), label='lifecycle', describe=desc,
                        nondet=True)
     # code -> spec: what was recorded along the replayed paths, judged by the monitors of RSocket.tla
